@@ -509,7 +509,9 @@ pub fn run_scenario(sc: &Scenario, sched: Sched, seed: u64, order: Option<Vec<us
                 Some(c) => c.clone(),
                 None => {
                     let n = unknown.len();
-                    format!("other {}", *unknown.entry(e.addr).or_insert(n))
+                    // the only mutexes created while requests run are the slots of channels made by
+                    // new_channel; their rank in the channel map is not known: instances from 100
+                    format!("slot {}", 100 + *unknown.entry(e.addr).or_insert(n))
                 }
             };
             let k = match e.kind {
@@ -561,7 +563,12 @@ fn base(class: &str) -> &str {
 
 /// canonical description of the wait-for cycle among the blocked threads:
 /// (`t0:node_state>slot 0 t1:slot 0>node_state`, kind `deadlock:node_state<->slot via a x b`)
-pub fn describe_deadlock(sc: &Scenario, trace: &[Ev]) -> (String, String) {
+/// Request kinds whose rows of the generated lock table are NOT rank-increasing (the complement of
+/// `subKinds` in lean/VlsModel/Props/C20.lean; finding F11).  A deadlock in which none of the blocked
+/// requests is of such a kind contradicts `C20_partial` and gets its own violation kind.
+pub const CYCLIC_KINDS: &[&str] = &["forget_channel", "setup_channel", "get_heartbeat", "add_block", "remove_block"];
+
+pub fn describe_deadlock(sc: &Scenario, trace: &[Ev], replies: &[(usize, usize, String)]) -> (String, String) {
     let n = sc.threads.len();
     let (held, want, fin) = end_state(trace, n);
     let holder = |c: &str| (0..n).find(|t| held[*t].iter().any(|h| h == c));
@@ -605,17 +612,20 @@ pub fn describe_deadlock(sc: &Scenario, trace: &[Ev]) -> (String, String) {
         parts.push(format!("t{}:{}>{}", t, wanted_from_t, w));
         classes.insert(base(&wanted_from_t).to_string());
         classes.insert(base(&w).to_string());
-        // request the thread is executing = first one without a reply is unknown here; use all kinds
-        for r in &sc.threads[t] {
+        // the request the thread is executing = the first one without a reply
+        let done = replies.iter().filter(|r| r.0 == t).count();
+        if let Some(r) = sc.threads[t].get(done) {
             kinds.insert(r.kind());
         }
     }
-    let kind = format!(
-        "deadlock:{} via {}",
-        classes.into_iter().collect::<Vec<_>>().join("<->"),
-        kinds.into_iter().collect::<Vec<_>>().join(" x ")
-    );
-    (parts.join(" "), kind)
+    let cls = classes.into_iter().collect::<Vec<_>>().join("<->");
+    let via = kinds.iter().cloned().collect::<Vec<_>>().join(" x ");
+    let kind = if kinds.iter().any(|k| CYCLIC_KINDS.contains(k)) {
+        format!("deadlock:{}", cls)
+    } else {
+        format!("deadlock-among-ordered-requests:{}", cls)
+    };
+    (format!("{} (requests: {})", parts.join(" "), via), kind)
 }
 
 /// slot acquired while a slot with a larger rank is held
@@ -630,7 +640,7 @@ fn slot_descending(trace: &[Ev], nthreads: usize) -> Option<String> {
                 if let Some(i) = e.class.strip_prefix("slot ").and_then(|s| s.parse::<usize>().ok()) {
                     for h in &held[e.tid] {
                         if let Some(j) = h.strip_prefix("slot ").and_then(|s| s.parse::<usize>().ok()) {
-                            if j >= i {
+                            if j >= i && i < 100 && j < 100 {
                                 return Some(format!("thread {} acquired slot {} while holding slot {}", e.tid, i, j));
                             }
                         }
@@ -678,7 +688,11 @@ pub struct C20 {
     serial_cache: RefCell<HashMap<String, Vec<(Vec<(usize, usize, String)>, String, bool)>>>,
     /// case text -> result of the run done while generating the case
     run_cache: RefCell<HashMap<String, RunResult>>,
+    /// scenario being scheduled and how many more schedules it gets
+    current: RefCell<Option<(Scenario, usize)>>,
 }
+
+const SCHEDULES_PER_SCENARIO: usize = 5;
 
 fn scenario_lines(sc: &Scenario) -> Vec<String> {
     let mut v = vec![format!("setup {} {}", sc.nchan, if sc.stub { 1 } else { 0 })];
@@ -752,7 +766,7 @@ impl C20 {
         }
         let observed: Vec<String> = r.trace.iter().map(|e| e.line()).collect();
         let nthreads = sc.threads.len();
-        let mut verdict;
+        let verdict;
         if r.completed {
             verdict = "done".to_string();
             co.tags.insert("completed".into());
@@ -775,8 +789,8 @@ impl C20 {
         } else {
             let msg = r.failure.clone().unwrap_or_default();
             if msg.contains("deadlock") {
-                let (desc, kind) = describe_deadlock(sc, &r.trace);
-                verdict = format!("deadlock {}", desc);
+                let (desc, kind) = describe_deadlock(sc, &r.trace, &r.replies);
+                verdict = format!("deadlock {}", desc.split(" (requests").next().unwrap_or(""));
                 co.tags.insert(kind.clone());
                 co.violations.push(Violation {
                     kind,
@@ -799,13 +813,21 @@ impl C20 {
         if let Some(d) = slot_descending(&r.trace, nthreads) {
             co.violations.push(Violation { kind: "lock-order:slot-descending".into(), desc: d, at: n_ops - 1 });
         }
-        if !embedded.is_empty() && embedded != observed.as_slice() {
-            verdict = "trace-differs".into();
+        let truncated = !ops.iter().any(|l| l == "end");
+        if !(embedded == observed.as_slice() || (truncated && observed.starts_with(embedded))) {
+            // a hand-edited / shrunk case whose embedded trace is not the trace of its scenario
+            if std::env::var("VERIF_C20_DET").is_ok() {
+                let k = embedded.iter().zip(observed.iter()).position(|(a, b)| a != b).unwrap_or(embedded.len().min(observed.len()));
+                eprintln!("STALE at {} of {}/{}: {:?} vs {:?}; completed {} failure {:?}\n  ops {:?}", k, embedded.len(), observed.len(), embedded.get(k), observed.get(k), r.completed, r.failure.as_ref().map(|s| s.lines().next().unwrap_or("").to_string()), ops.iter().filter(|o| !o.starts_with("ev")).collect::<Vec<_>>());
+            }
+            panic!("stale trace: the embedded ev lines are not the lock trace of this scenario and schedule");
         }
-        co.out.push(verdict);
-        while co.out.len() < n_ops {
-            co.out.push("ok".into());
+        if !truncated {
+            co.out.push(verdict);
+        } else {
+            co.violations.clear(); // a prefix of a case (correspondence shrinking): outputs only
         }
+        co.out.truncate(n_ops);
         let blocked = r.trace.windows(2).any(|w| w[0].k == 'w' && !(w[1].k == 'a' && w[1].tid == w[0].tid));
         if blocked {
             co.tags.insert("contended".into());
@@ -864,12 +886,33 @@ impl Group for C20 {
         "non-trivial = at least one thread had to wait for a lock held by another thread (contention in the observed trace) or the schedule did not complete"
     }
     fn gen_case(&self, rng: &mut Rng, _tier: Tier) -> Vec<String> {
-        let sc = gen_scenario(rng);
+        // several schedules per scenario: the sequential orders of a scenario are executed once
+        let sc = {
+            let mut cur = self.current.borrow_mut();
+            match cur.take() {
+                Some((sc, left)) if left > 0 => {
+                    *cur = Some((sc.clone(), left - 1));
+                    sc
+                }
+                _ => {
+                    let sc = gen_scenario(rng);
+                    *cur = Some((sc.clone(), SCHEDULES_PER_SCENARIO - 1));
+                    sc
+                }
+            }
+        };
         let sched = if rng.chance(1, 2) { Sched::Pct } else { Sched::Random };
         let seed = rng.next() >> 16;
         let mut ops = scenario_lines(&sc);
         ops.push(format!("run {} {}", if sched == Sched::Pct { "pct" } else { "random" }, seed));
         let r = run_scenario(&sc, sched, seed, None);
+        if std::env::var("VERIF_C20_DET").is_ok() {
+            let r2 = run_scenario(&sc, sched, seed, None);
+            if r2.trace != r.trace {
+                let k = r.trace.iter().zip(r2.trace.iter()).position(|(a, b)| a != b).unwrap_or(0);
+                eprintln!("NONDET {:?} {:?} seed {} at {}: {:?} vs {:?} (len {} {}) completed {} {}", sc, sched, seed, k, r.trace.get(k), r2.trace.get(k), r.trace.len(), r2.trace.len(), r.completed, r2.completed);
+            }
+        }
         for e in &r.trace {
             ops.push(e.line());
         }
@@ -880,11 +923,7 @@ impl Group for C20 {
     fn exec_case(&self, ops: &[String]) -> CaseOut {
         let (sc, sched, seed, evs) = match parse_case(ops) {
             Some(x) => x,
-            None => {
-                let mut co = CaseOut::default();
-                co.out = ops.iter().map(|_| "bad-case".to_string()).collect();
-                return co;
-            }
+            None => panic!("malformed C20 case"),
         };
         let cached = self.run_cache.borrow_mut().remove(&ops.join("\n"));
         let r = match cached {
@@ -905,5 +944,5 @@ impl Group for C20 {
 }
 
 pub fn groups() -> Vec<Box<dyn Group>> {
-    vec![Box::new(C20 { serial_cache: RefCell::new(HashMap::new()), run_cache: RefCell::new(HashMap::new()) })]
+    vec![Box::new(C20 { serial_cache: RefCell::new(HashMap::new()), run_cache: RefCell::new(HashMap::new()), current: RefCell::new(None) })]
 }
